@@ -14,8 +14,7 @@ from concurrent.futures import ThreadPoolExecutor
 VERIF = os.path.dirname(os.path.dirname(os.path.abspath(__file__)))
 EXPECT_MISS = {"C08b": "RectClip64 closing heuristic: not decided (DESIGN 9.3)",
                "C08e": "RectClip64::TidyEdges re-join bookkeeping: not decided (DESIGN 9.3)",
-               "C03l": "DoSplitOp: sign convention of AreaTriangle's argument order (numeric orientation test): not decided (DESIGN 9.3)",
-               "C18l": "GetSegmentIntersectPt: which end point the t >= 1 clamp stores (clamping branches): not decided (DESIGN 9.3, 9.4)"}
+               "C03l": "DoSplitOp: sign convention of AreaTriangle's argument order (numeric orientation test): not decided (DESIGN 9.3)"}
 # seeds that are (also) caught under another property than the one the author named
 ALSO = {"C08a": ["C12"], "C10a": ["C12"], "C11b": ["C12"], "C12a": ["C08"], "C12b": ["C07"], "C13a": ["C10", "C18"], "C01b": ["C10", "C13", "C18"],
         "C06a": ["C07", "C12"], "C06b": ["C12"], "C12d": ["C06"], "C10c": ["C12"], "C05c": ["C12"], "C01c": ["C12"], "C13b": ["C05"], "C16c": ["C15"],
